@@ -344,13 +344,30 @@ class SpawnProcess(multiprocessing.context.SpawnProcess):
         assert exitcode == 0
         return self._mpservice_exitcode_
 
+    def _join_process(self, timeout=None) -> bool:
+        # Wait for the process to end; return whether it has.
+        #
+        # `exitcode` is polled by several threads (the result collector thread does it while
+        # the user calls `join`), and only one `waitpid` call gets to reap the child; the others
+        # fail with ECHILD, which the standard library reports as "no exit code yet". So after
+        # the standard `join` has returned, `exitcode` may still be `None` for a moment although
+        # the child is gone: tell that case (the sentinel is ready) from a real timeout and wait
+        # for the thread that did reap the child to record the exit code.
+        super().join(timeout=timeout)
+        if self.exitcode is not None:
+            return True
+        if not multiprocessing.connection.wait([self.sentinel], 0):
+            return False  # timed out
+        while self.exitcode is None:
+            time.sleep(0.001)
+        return True
+
     def join(self, timeout=None):
         """
         Same behavior as the standard lib, except that if the process
         terminates with an exception, the exception is raised.
         """
-        super().join(timeout=timeout)
-        if not self.done():
+        if not self._join_process(timeout):
             # timed out
             return
 
@@ -397,8 +414,7 @@ class SpawnProcess(multiprocessing.context.SpawnProcess):
         """
         Behavior is similar to ``concurrent.futures.Future.exception``.
         """
-        super().join(timeout)
-        if not self.done():
+        if not self._join_process(timeout):
             raise TimeoutError
         self._result_collector_thread_.join()
         return self._future_.exception()
